@@ -116,7 +116,8 @@ InScope(c) ==
 \* or two claim values in one of the three claim-source forms.  Same requirement: client values only if preserved, then the
 \* values derived from the session (empty and unknown claims give nothing).
 Spellings == {"canonical", "upper", "lower", "mixed"}
-SKinds    == {"plain", "prefixed", "basic", "two", "dup"}     \* two: the claim and the e-mail as two values of the one header; dup: the claim twice
+SKinds    == {"plain", "prefixed", "basic", "two", "dup", "none"}     \* two: the claim and the e-mail as two values of the one header; dup: the claim twice;
+                                                                     \* none: a configured name with an EMPTY value list (nothing to inject, but still a name the operator configured)
 SClaims   == {"user", "email", "groups", "pu", "at", "unknown"}
 SSources  == {"cookie", "cookie_nogrp", "cookie_emptygrp", "bearer", "basic", "none_bypass", "cookie_bypass"}
 NoFlags   == [pba |-> FALSE, pat |-> FALSE, puh |-> FALSE, paz |-> FALSE, sx |-> FALSE, sba |-> FALSE, saz |-> FALSE, pe |-> FALSE, strip |-> TRUE, pw |-> FALSE]
@@ -124,11 +125,12 @@ SVals(s, src, claim) == IF claim = "unknown" THEN <<>> ELSE FieldVals(s, src, No
 STagKind(k) == IF k \in {"two", "dup"} THEN "plain" ELSE k
 SDerived(d) ==
     LET s == SessionOf(d.source)
-        v == SVals(s, d.source, d.claim) \o (IF d.kind = "two" THEN SVals(s, d.source, "email") ELSE IF d.kind = "dup" THEN SVals(s, d.source, d.claim) ELSE <<>>)
+        v == IF d.kind = "none" THEN <<>> ELSE SVals(s, d.source, d.claim) \o (IF d.kind = "two" THEN SVals(s, d.source, "email") ELSE IF d.kind = "dup" THEN SVals(s, d.source, d.claim) ELSE <<>>)
     IN [i \in 1..Len(v) |-> <<STagKind(d.kind), v[i]>>]
 SExpected(d) ==
     (IF d.endpoint = "upstream" /\ d.preserve THEN ClientTags("X-Vp-Ident", d.source, d.spoof) ELSE <<>>) \o SDerived(d)
 SInScope(d) ==
+    /\ (d.kind = "none" => d.claim = "user")
     /\ (d.endpoint = "authonly" => d.spoof \in {"absent", "canonical"} /\ ~d.preserve /\ d.source # "cookie_bypass")
     /\ (d.source \in {"basic"} => d.claim \in {"user", "email", "groups", "unknown"})
     /\ (Tier = "quick" => /\ d.spoof \in {"absent", "canonical", "lower", "repeated"}
@@ -136,7 +138,7 @@ SInScope(d) ==
                           /\ (d.source = "cookie_emptygrp" => d.claim = "groups" /\ d.spoof = "absent")
                           /\ (d.kind = "dup" => d.claim = "groups" /\ d.spoof = "absent")
                           /\ d.claim \in {"user", "groups", "pu", "unknown"}
-                          /\ d.kind \in {"plain", "basic", "two", "dup"}
+                          /\ d.kind \in {"plain", "basic", "two", "dup", "none"}
                           /\ (d.spoof \in {"canonical", "repeated"} => d.source \in {"cookie", "none_bypass"}))
 SMk(ep, sp, pr, k, cl, src, spoof) == [struct |-> TRUE, endpoint |-> ep, spelling |-> sp, preserve |-> pr, kind |-> k, claim |-> cl, source |-> src, spoof |-> spoof, store |-> "cookie"]
 
